@@ -10,32 +10,48 @@ use crate::replay::Target;
 // ---------------------------------------------------------------------------
 pub struct MappingTarget {
     ids: Vec<u32>,
-    m: Mapping<NameId, u32>,
+    /// the same history is applied to mappings built by every constructor (default,
+    /// pre-sized to 1 / 129 / 600 slots): what a user observes must not depend on it
+    ms: Vec<Mapping<NameId, u32>>,
+}
+
+fn fresh_mappings() -> Vec<Mapping<NameId, u32>> {
+    vec![
+        Mapping::default(),
+        Mapping::with_capacity(1),
+        Mapping::with_capacity(129),
+        Mapping::with_capacity(600),
+    ]
 }
 
 impl MappingTarget {
     pub fn new(ids: &[u32]) -> Self {
         MappingTarget {
             ids: ids.to_vec(),
-            m: Mapping::default(),
+            ms: fresh_mappings(),
         }
     }
-    fn obs(&self) -> Value {
-        let get: Vec<u32> = self
-            .ids
-            .iter()
-            .map(|&k| self.m.get(NameId(k)).copied().unwrap_or(0))
-            .collect();
-        let iter: Vec<Value> = self.m.iter().map(|(k, v)| json!([k.0, *v])).collect();
-        let ser = serde_json::to_value(&self.m).unwrap();
+    fn obs_of(&self, m: &Mapping<NameId, u32>) -> Value {
+        let get: Vec<u32> = self.ids.iter().map(|&k| m.get(NameId(k)).copied().unwrap_or(0)).collect();
+        let iter: Vec<Value> = m.iter().map(|(k, v)| json!([k.0, *v])).collect();
+        let ser = serde_json::to_value(m).unwrap();
         let slots = ser.as_array().map(|a| a.len()).unwrap_or(0);
-        json!({"get": get, "len": self.m.len(), "empty": self.m.is_empty(), "iter": iter, "slots": slots})
+        json!({"get": get, "len": m.len(), "empty": m.is_empty(), "iter": iter, "slots": slots})
+    }
+    fn obs(&self) -> Value {
+        let all: Vec<Value> = self.ms.iter().map(|m| self.obs_of(m)).collect();
+        if all.iter().all(|o| *o == all[0]) {
+            all[0].clone()
+        } else {
+            // reported as a mismatch against the model's observation
+            json!({"constructors_disagree": all})
+        }
     }
 }
 
 impl Target for MappingTarget {
     fn reset(&mut self) -> Value {
-        self.m = Mapping::default();
+        self.ms = fresh_mappings();
         self.obs()
     }
     fn apply(&mut self, op: &Value) -> Value {
@@ -43,14 +59,20 @@ impl Target for MappingTarget {
         let v = op["v"].as_u64().unwrap() as u32;
         match op["op"].as_str().unwrap() {
             "insert" => {
-                self.m.insert(NameId(k), v);
+                for m in self.ms.iter_mut() {
+                    m.insert(NameId(k), v);
+                }
             }
             "unset" => {
-                self.m.unset(NameId(k));
+                for m in self.ms.iter_mut() {
+                    m.unset(NameId(k));
+                }
             }
             "roundtrip" => {
-                let s = serde_json::to_string(&self.m).unwrap();
-                self.m = serde_json::from_str(&s).unwrap();
+                for m in self.ms.iter_mut() {
+                    let s = serde_json::to_string(&*m).unwrap();
+                    *m = serde_json::from_str(&s).unwrap();
+                }
             }
             o => panic!("unknown op {o}"),
         }
@@ -61,8 +83,14 @@ impl Target for MappingTarget {
 // ---------------------------------------------------------------------------
 // Pool (C18)
 // ---------------------------------------------------------------------------
-#[derive(Clone, PartialEq, Eq, Hash, Debug)]
+#[derive(Clone, PartialEq, Eq, Debug)]
 pub struct Vs(pub u32);
+// A legal but useless hash (equal values hash alike - and so do all others): every two
+// version sets of one package collide, so a pool that identifies a version set by its hash
+// instead of by its value gives itself away.
+impl std::hash::Hash for Vs {
+    fn hash<H: std::hash::Hasher>(&self, _state: &mut H) {}
+}
 impl resolvo::utils::VersionSet for Vs {
     type V = u32;
 }
@@ -467,7 +495,13 @@ pub fn mapping_histories(args: &[String]) {
     let mut rng = crate::rng::Rng::new(seed ^ 0x3A9);
     for h in 0..n {
         writeln!(f, "{}", json!({"ev":"reset","id":h + 1})).unwrap();
-        let mut m: Mapping<NameId, u32> = Mapping::default();
+        let mut m: Mapping<NameId, u32> = match rng.range(0, 4) {
+            0 => Mapping::default(),
+            1 => Mapping::with_capacity(1),
+            2 => Mapping::with_capacity(129),
+            3 => Mapping::with_capacity(rng.range(1, 700) as usize),
+            _ => Mapping::with_capacity(5000),
+        };
         // a small pool of ids per history: dense, around chunk boundaries, and large
         let mut pool: Vec<u32> = Vec::new();
         let k = rng.range(3, 10);
